@@ -229,6 +229,66 @@ TRUSTED_BASE = [
 ]
 
 
+class TieCoverage:
+    """which lines of the implementation the correspondence run of this check actually executed (thorough tier, or VERIF_COV=1):
+    a line never executed is tied to the model by nothing. Reported per file and per source range the property is anchored in."""
+
+    def __init__(self, pid):
+        self.pid, self.cov, self.summary = pid, None, None
+
+    def start(self):
+        try:
+            import coverage
+            self.cov = coverage.Coverage(source=[str(REPO / "src" / "basictdf")], data_file=None)
+            self.cov.start()
+        except Exception:
+            self.cov = None
+
+    @staticmethod
+    def _ranges(lines):
+        out, lines = [], sorted(lines)
+        for l in lines:
+            if out and l == out[-1][1] + 1:
+                out[-1][1] = l
+            else:
+                out.append([l, l])
+        return ",".join(str(a) if a == b else f"{a}-{b}" for a, b in out)
+
+    def stop(self):
+        if self.cov is None:
+            return
+        try:
+            self.cov.stop()
+            files = {}
+            for f in sorted(self.cov.get_data().measured_files()):
+                _, stmts, _, missing, _ = self.cov.analysis2(f)
+                files[os.path.basename(f)] = (set(stmts), set(missing))
+            per_file = {n: dict(statements=len(st), executed=len(st) - len(mi), never_executed=self._ranges(mi)) for n, (st, mi) in files.items()}
+            anchored = []
+            try:
+                prop = next(json.loads(l) for l in (VERIF / "properties.jsonl").read_text().splitlines() if json.loads(l)["id"] == self.pid)
+                for mech in prop["anchors"].get("mechanism", []):
+                    for m in re.finditer(r"(\w+\.py):([\d,\-]+)", mech.get("where", "")):
+                        name, spec = m.group(1), m.group(2)
+                        if name not in files:
+                            continue
+                        want = set()
+                        for part in spec.split(","):
+                            if part:
+                                a, _, b = part.partition("-")
+                                want |= set(range(int(a), int(b or a) + 1))
+                        st, mi = files[name]
+                        w = want & st
+                        if w:
+                            anchored.append(dict(anchor=f"{name}:{spec}", mechanism=mech.get("name", "")[:80], statements=len(w), executed=len(w - mi), never_executed=self._ranges(w & mi)))
+            except Exception:
+                pass
+            self.summary = dict(note="line numbers of the anchors are those of the pinned commit; the tree has drifted by the fix commits, so anchored ranges are approximate",
+                                per_file=per_file, anchored_ranges=anchored)
+        except Exception as e:
+            self.summary = dict(error=f"{type(e).__name__}: {e}")
+
+
 def guarded_run(session, ctx):
     """a session that cannot interpret what the implementation produced (an unexpected exception while building,
     observing or judging real objects) has lost its correspondence: recorded as a diff, not as an infrastructure error.
@@ -258,8 +318,13 @@ def run_check(pid, session, tier, seed, replay_path=None):
     except Exception:
         pass
     ctx = Ctx(pid, tier, seed)
+    tie = TieCoverage(pid) if (tier == "thorough" or os.environ.get("VERIF_COV")) else None
     if DRV.exists():
+        if tie:
+            tie.start()
         guarded_run(session, ctx)
+        if tie:
+            tie.stop()
     else:
         lean["problems"].append("model driver not built")
         lean["ok"] = False
@@ -317,6 +382,8 @@ def run_check(pid, session, tier, seed, replay_path=None):
     )
     if ctx.exhaustive is not None:
         cov["exhaustive"] = ctx.exhaustive
+    if tie and tie.summary:
+        cov["implementation_lines_exercised"] = tie.summary
     ev = dict(property_id=pid, tier=tier, seed=seed, level="proof", coverage=cov,
               assumptions=getattr(session, "ASSUMPTIONS", []), wall_s=wall, violations=1 if violation else 0)
     (EVID / f"{pid}.json").write_text(json.dumps(ev, indent=1))
